@@ -6,7 +6,7 @@ from typing import Dict, List
 
 from .. import sym
 from ..sym import Rat, C
-from ..values import Num, Const, Tup, Term, Obj, P, Val, arr_param, scalar_param, term_as_num, veq, fresh_serial
+from ..values import Num, Const, Tup, Term, Obj, P, Val, Ref, arr_param, scalar_param, term_as_num, veq, fresh_serial
 from ..model import AnalysisError
 from ..rfa_model import Strategy, strategy, SpecEnv, RFA, ADAPT, strip_state
 from ..symeval import Evaluator, assume
@@ -396,8 +396,18 @@ def check_adaptive_windows(ctx):
         if isinstance(q, P) and q.op == '==':
             u, v = q.args
             for x_, y_ in ((u, v), (v, u)):
-                if isinstance(x_, Num) and x_.is_const() and x_.const() == 0 and isinstance(y_, Num) and y_.length is None and y_.r == r:
-                    return True
+                if isinstance(x_, Num) and x_.is_const() and x_.const() == 0 and isinstance(y_, Num) and y_.length is None:
+                    if y_.r == r:
+                        return True
+                    # the same jump times a factor that does not involve the averages (a width, a constant): zero exactly when the jump is
+                    try:
+                        ratio = y_.r / r
+                    except Exception:
+                        continue
+                    if not ratio.is_const() or ratio.const_value() != 0:
+                        if not any(sym.ATOMS.head(a_) == 'el' and isinstance(sym.ATOMS.args(a_)[0], Ref) and sym.ATOMS.args(a_)[0].label == 'Yext'
+                                   for a_ in sym.all_atoms(ratio)):
+                            return True
         return False
 
     expected = {
